@@ -25,6 +25,8 @@
 mod gate;
 #[path = "c10_os.rs"]
 mod os;
+#[path = "c10_sib.rs"]
+mod sib;
 #[path = "c10_srv.rs"]
 mod srv;
 
@@ -324,6 +326,13 @@ pub fn do_pull(
         s.trailer = trailer.to_vec();
         // (not in the traced child: the harness must not add file-system syscalls of its own there)
         s.dest_at_verify = if observe_dest { snapshot_path(dest) } else { None };
+        if observe_dest {
+            if let Some(l) = PROBE_LISTING.lock().unwrap().as_mut() {
+                if let Some(dir) = dest.parent() {
+                    *l = std::fs::read_dir(dir).map(|d| d.flatten().map(|e| e.file_name().to_string_lossy().to_string()).collect()).unwrap_or_default();
+                }
+            }
+        }
     };
     let to_res = |r: Result<(), RepeError>| match r {
         Ok(()) => Res::Ok,
@@ -528,10 +537,51 @@ impl Drop for CaseDir {
     }
 }
 
+/// The implementation's temp file for a pull to `dest` (always `<dir>/DEST_NAME` here). The NAME is an
+/// implementation detail the property does not fix, so it is not assumed: it is observed once per run
+/// (`temp_name`) and everything that needs it (planting the residue of a killed pull, telling the temp file
+/// from a stray file in the listings) goes through here.
 pub fn temp_sibling(dest: &Path) -> PathBuf {
-    let mut name = dest.file_name().unwrap().to_os_string();
-    name.push(".svspart");
-    dest.with_file_name(name)
+    debug_assert_eq!(dest.file_name().and_then(|n| n.to_str()), Some(DEST_NAME));
+    dest.with_file_name(temp_name())
+}
+
+const DEFAULT_TEMP_NAME: &str = "out.bin.svspart";
+static TEMP_NAME: std::sync::OnceLock<String> = std::sync::OnceLock::new();
+static DISCOVERING: std::sync::atomic::AtomicBool = std::sync::atomic::AtomicBool::new(false);
+/// directory listing taken by the verifier of the discovery pull (the complete temp file exists at that moment)
+static PROBE_LISTING: Mutex<Option<Vec<String>>> = Mutex::new(None);
+
+/// File name of the temp file of a pull to `DEST_NAME`: taken from the environment in a traced child (the
+/// parent passes it down), else observed: one verified pull into a fresh directory whose verifier lists the
+/// directory; the one entry that is not the destination is the temp file. An implementation that keeps no
+/// named sibling at that moment yields the conventional name (the rows that plant a residue then plant a
+/// bystander file, which the property equally wants left alone or consumed).
+pub fn temp_name() -> &'static str {
+    if DISCOVERING.load(std::sync::atomic::Ordering::SeqCst) {
+        return DEFAULT_TEMP_NAME;
+    }
+    TEMP_NAME.get_or_init(|| {
+        if let Ok(n) = std::env::var("C10_TEMP_NAME") {
+            return n;
+        }
+        DISCOVERING.store(true, std::sync::atomic::Ordering::SeqCst);
+        *PROBE_LISTING.lock().unwrap() = Some(Vec::new());
+        let case = Case {
+            cfg: Cfg { puller: Puller::TrailerFile, zstd: false, n: 8, chunk: 4, trailer: 4, tamper: Tamper::None, reject: false },
+            dest: DestKind::Absent,
+            fault: Fault::None,
+            stale_temp: None,
+        };
+        let found = std::net::TcpListener::bind("127.0.0.1:0").ok().and_then(|l| run_case(&case, &l).ok()).and_then(|_| {
+            let listing = PROBE_LISTING.lock().unwrap().take().unwrap_or_default();
+            let mut others: Vec<String> = listing.into_iter().filter(|n| n != DEST_NAME).collect();
+            if others.len() == 1 { others.pop() } else { None }
+        });
+        *PROBE_LISTING.lock().unwrap() = None;
+        DISCOVERING.store(false, std::sync::atomic::Ordering::SeqCst);
+        found.unwrap_or_else(|| DEFAULT_TEMP_NAME.to_string())
+    })
 }
 
 // ------------------------------------------------------------------ part 1: one case
@@ -698,7 +748,7 @@ pub fn judge(case: &Case, base: &Baseline, o: &Obs) -> Vec<Bad> {
         want_dir.insert(dest_name.clone(), Entry::File(want.clone()));
         if case.stale_temp.is_some() {
             // the residue of the earlier pull is consumed (replaced and renamed away)
-            want_dir.remove(&format!("{DEST_NAME}.svspart"));
+            want_dir.remove(temp_name());
         }
         if dest_ok && o.after.get(&dest_name) != Some(&Entry::File(want.clone())) {
             bad.push(Bad {
@@ -1049,6 +1099,7 @@ fn run_part1(ctx: &Ctx, tier: Tier, samples: &Samples) -> (P1Stats, Value) {
         "faults_reaching_midstream": s.midstream,
         "sync_faults_with_temp_sibling_present": s.temp_seen,
         "sync_faults_with_partial_nonempty_temp": s.partial_temp_seen,
+        "temp_file_name_observed": temp_name(),
         "verifier_accepts": s.verify_accepts,
         "verifier_rejects": s.verify_rejects,
         "stream_shorter_than_trailer_rejected": s.short_for_trailer,
@@ -1073,7 +1124,7 @@ pub fn run(tier: Tier) -> ! {
     // (the evidence then says `exhaustive: false`)
     let parts = std::env::var("VERIF_C10_PARTS").ok();
     let on = |p: &str| parts.as_deref().map(|s| s.split(',').any(|x| x.trim() == p)).unwrap_or(true);
-    let all_parts = on("1") && on("23") && on("gate");
+    let all_parts = on("1") && on("23") && on("gate") && on("sib");
     let samples_gate = Samples::new(6);
     let t0 = std::time::Instant::now();
     let (p1, p1cov) = if on("1") { run_part1(&ctx, tier, &samples) } else { (P1Stats::default(), json!({"skipped": true})) };
@@ -1082,6 +1133,10 @@ pub fn run(tier: Tier) -> ! {
     let t2 = t0.elapsed().as_secs_f64() - t1;
     let (p4, p4cov) = if on("gate") { gate::run_gate(&ctx, tier, &samples_gate) } else { (gate::GStats::default(), json!({"skipped": true})) };
     let t3 = t0.elapsed().as_secs_f64() - t1 - t2;
+    let samples_sib = Samples::new(4);
+    let (p5, p5cov) = if on("sib") { sib::run_sib(&ctx, tier, &samples_sib) } else { (sib::SibStats::default(), json!({"skipped": true})) };
+    let t4 = t0.elapsed().as_secs_f64() - t1 - t2 - t3;
+    eprintln!("[C10] part 5 (two pulls into one directory): {} rows in {t4:.1}s", p5.rows);
     eprintln!(
         "[C10] part 1: {} cases in {t1:.1}s; parts 2+3: {} child runs, {} crash states in {t2:.1}s; part 4 (gated consumers): {} rows / {} pulls in {t3:.1}s ({} wave(s), up to {} concurrent)",
         p1.cases, p23.kill_runs, p23.crash_states, p4.rows, p4.pulls, p4.waves, p4.max_concurrent
@@ -1147,6 +1202,17 @@ pub fn run(tier: Tier) -> ! {
             ctx.machinery(format!("vacuity in part 1: {p1cov}"));
         }
     }
+    if !ctx.has_violation() && on("sib") {
+        if let Some(m) = p5.machinery.first() {
+            ctx.machinery(format!("part 5: {} harness problem(s), first: {m}", p5.machinery.len()));
+        }
+        if let Some(m) = p5.healthy_pull_failed.first() {
+            ctx.machinery(format!("vacuity: part 5: {} healthy pull(s) did not succeed, first: {m}", p5.healthy_pull_failed.len()));
+        }
+        if p5.rows == 0 || p5.both_ok == 0 || p5.held_failed_as_scripted == 0 {
+            ctx.machinery(format!("vacuity in part 5: {p5cov}"));
+        }
+    }
     if !ctx.has_violation() && on("23") {
         if let Some(msg) = p23.vacuity() {
             ctx.machinery(format!("vacuity in parts 2/3: {msg}"));
@@ -1155,15 +1221,16 @@ pub fn run(tier: Tier) -> ! {
     let mut all_samples = samples.take();
     all_samples.extend(samples_os.take());
     all_samples.extend(samples_gate.take());
+    all_samples.extend(samples_sib.take());
     all_samples.sort_by_key(|v| v.to_string());
-    let evaluations = p1.cases + p23.kill_runs + p23.crash_states + p4.pulls;
-    let distinct = p1.nontrivial.len() as u64 + p23.distinct_kill_points + p23.distinct_crash_classes + p4.nontrivial.len() as u64;
+    let evaluations = p1.cases + p23.kill_runs + p23.crash_states + p4.pulls + 2 * p5.rows;
+    let distinct = p1.nontrivial.len() as u64 + p23.distinct_kill_points + p23.distinct_crash_classes + p4.nontrivial.len() as u64 + p5.nontrivial.len() as u64;
     let exhaustive = p23.exhaustive && all_parts;
     let cov = json!({
         "evaluations": evaluations,
         "distinct_nontrivial": distinct,
         "exhaustive": exhaustive,
-        "rule": "part1: every (puller x compression x n x trailer x verifier) configuration is first run fault-free to MEASURE its response count R and wire stream; then every producer-failure byte position 0..=n, cut after response k and cut on request k for k=1..=R, scripted error on the k-th next, error to open, last-never-sent-then-EOF, x destination {absent, pre-existing}; plus rename-onto-non-empty-directory and missing-parent rows. part2: per (file puller x compression x destination) a strace dry run measures the syscall history on the temp/destination paths (-P) and the socket receives; one child run per (syscall name, k) for every k up to the measured count with inject=<name>:signal=SIGKILL:when=k. part3: every prefix of the recorded history x every subset of writes not yet covered by fsync/fdatasync dropped, through a rename-atomic file-system model. part4 (slow / gated consumers): per (client x puller x compression x stream shape) an ungated fault-free run MEASURES the wire chunks and how often the caller-supplied digest / consume closure is called; every fault (producer failure, cut after response k, error on the k-th next; at most 4 chunks delivered before it) is first run ungated to measure the hook calls U made before the failure; then the hook parks on a harness gate at its call k in {first, middle, last of U} (thorough: every k), the harness waits until the consumer is parked AND the failure was applied, keeps the gate closed for hold_ms of real time (all in-memory scenarios run concurrently, one controller thread + one pull thread with a private runtime each), samples the directory at the moment the pull function returns, >= 300 ms after the gate opened, when every consumer has dropped its state and after the runtime (with its blocking threads) was joined; x destination {absent, pre-existing} x {no retry, retry of the now healthy resource (new content, same destination) started the moment the failed pull returned, the same with the retry's own digest parked at its last call until the earlier consumer finished}; a gated verifier (accepting / rejecting) sampled when it parked and at the end of the hold; pull_consume[_async] closures parked mid-read; healthy streams of more chunks than the pull loop buffers with the consumer parked at its first call for the whole hold; blocking Client pullers with the connection cut by the harness while the inline consumer is parked.",
+        "rule": "part1: every (puller x compression x n x trailer x verifier) configuration is first run fault-free to MEASURE its response count R and wire stream; then every producer-failure byte position 0..=n, cut after response k and cut on request k for k=1..=R, scripted error on the k-th next, error to open, last-never-sent-then-EOF, x destination {absent, pre-existing}; plus rename-onto-non-empty-directory and missing-parent rows. part2: per (file puller x compression x destination) a strace dry run measures the syscall history on the temp/destination paths (-P) and the socket receives; one child run per (syscall name, k) for every k up to the measured count with inject=<name>:signal=SIGKILL:when=k. part3: every prefix of the recorded history x every subset of writes not yet covered by fsync/fdatasync dropped, through a rename-atomic file-system model. part4 (slow / gated consumers): per (client x puller x compression x stream shape) an ungated fault-free run MEASURES the wire chunks and how often the caller-supplied digest / consume closure is called; every fault (producer failure, cut after response k, error on the k-th next; at most 4 chunks delivered before it) is first run ungated to measure the hook calls U made before the failure; then the hook parks on a harness gate at its call k in {first, middle, last of U} (thorough: every k), the harness waits until the consumer is parked AND the failure was applied, keeps the gate closed for hold_ms of real time (all in-memory scenarios run concurrently, one controller thread + one pull thread with a private runtime each), samples the directory at the moment the pull function returns, >= 300 ms after the gate opened, when every consumer has dropped its state and after the runtime (with its blocking threads) was joined; x destination {absent, pre-existing} x {no retry, retry of the now healthy resource (new content, same destination) started the moment the failed pull returned, the same with the retry's own digest parked at its last call until the earlier consumer finished}; a gated verifier (accepting / rejecting) sampled when it parked and at the end of the hold; pull_consume[_async] closures parked mid-read; healthy streams of more chunks than the pull loop buffers with the consumer parked at its first call for the whole hold; blocking Client pullers with the connection cut by the harness while the inline consumer is parked. part5 (two pulls into one directory): one pull parked mid-stream (its producer blocks on a harness gate after a chosen byte count) while a second pull to a sibling destination (names sharing a stem / a prefix / nothing) runs from start to finish; x held pull healthy / producer failing at the end x blocking / async pullers x compression x destinations absent / pre-existing; each destination judged on its own at the free pull's return and at the end.",
         "bound": {
             "chunk_bytes": tier.pick(json!([4]), json!([3,4,8])),
             "n": tier.pick("{0,1,c,2c+1,3c+1}", "0..=3c+1"),
@@ -1193,6 +1260,7 @@ pub fn run(tier: Tier) -> ! {
             "part1": p1cov,
             "part2_3": p23.coverage(),
             "part4_gated_consumers": p4cov,
+            "part5_sibling_pulls": p5cov,
         },
         "samples": all_samples,
     });
@@ -1227,6 +1295,7 @@ pub fn replay(case: &Value) -> Result<(), String> {
         }
         Some(2) | Some(3) => os::replay(case),
         _ if case["part"].as_str() == Some("gate") => gate::replay(case),
+        _ if case["part"].as_str() == Some("sibling") => sib::replay(case),
         _ => Err("unknown C10 case".into()),
     }
 }
